@@ -66,7 +66,8 @@ def alloc_correspondence(ctx):
         kind, n = rng.choice([("DD", 1760), ("HF:8200", 8200), ("HF:4068", 4068)])
         root = n // 2
         L = gen.dev_create(kind, 1) + ["mountdev 0", "mount 0 0"]
-        M = ["used %d" % root, "used %d" % (root + 1)] + (["used %d" % (root + 2)] if n > 4066 else [])
+        npages = (n - 2 + 4063) // 4064                     # bitmap pages sit right behind the root block on a fresh volume
+        M = ["used %d" % root] + ["used %d" % (root + 1 + i) for i in range(npages)]
         ops = []
         # occupy most of the volume so that the scan wraps around and exhaustion is reached
         dense = rng.random() < 0.5
@@ -176,6 +177,9 @@ def run(ctx):
     b += [("extension-boundary-exhaustion", wrap(c08.boundary_history)) for _ in range(6 if ctx.tier == "quick" else 100)]
     b += [("namespace", c02.ns_history) for _ in range(8 if ctx.tier == "quick" else 200)]
     b += [("rdb-partition", c03.part_history) for _ in range(4 if ctx.tier == "quick" else 80)]
+    # undelete: every block of the entry that comes back is allocated again, a refused undelete marks nothing
+    from . import undel
+    b += [("undelete", undel.history) for _ in range(24 if ctx.tier == "quick" else 400)]
     rule = ("bit-index calls on volumes with 1..3 bitmap pages at page/word boundaries; histories (multi-page hardfiles crossing the 4064-block page boundary, "
             "file and namespace histories, forced and real exhaustion episodes, DIRCACHE directories grown over several cache blocks and emptied, RDB partition with non-zero first block) judged at every dump by the extracted decoder: each reachable block reached once, "
             "in range, marked allocated in the ON-DISK bitmap (dumps are taken with and without remount); distinct = distinct call / script")
